@@ -1,0 +1,55 @@
+//go:build verif
+
+package iocloser
+
+// Contracts for GoVC (see /verif/DESIGN.md). Comment-only: compiles to nothing.
+// C20 is a property over call histories, so the objects are verified in sequential mode
+// (no interference between calls); the lock discipline (C13) is checked all the same.
+//
+//@ object ReadCloser
+//@   props C20 C13
+//@   mode sequential
+//@   lock closeMtx
+//@   guarded rd, close
+//
+//@ func NewReadCloser
+//@   props C20
+//@   modifies alloc
+//@   ensures result != nil && result.rd == rd && result.close == close
+//
+//@ func (*ReadCloser).Read
+//@   props C20
+//@   modifies elems(byte), ghost:calls, time
+//@   ensures closed: old(w.rd) == nil ==> result0 == 0 && result1 == io.EOF && (forall r: ref :: calls(r) == old(calls(r)))
+//@   ensures open: old(w.rd) != nil ==> calls(old(w.rd)) == old(calls(old(w.rd))) + 1 && (forall r: ref :: r != old(w.rd) ==> calls(r) == old(calls(r)))
+//
+//@ func (*ReadCloser).Close
+//@   props C20
+//@   modifies this.rd, this.close, ghost:calls, time
+//@   ensures cleared: w.rd == nil && w.close == nil
+//@   ensures once: old(w.close) != nil ==> calls(old(w.close)) == old(calls(old(w.close))) + 1 && (forall r: ref :: r != old(w.close) ==> calls(r) == old(calls(r)))
+//@   ensures none: old(w.close) == nil ==> result == nil && (forall r: ref :: calls(r) == old(calls(r)))
+//
+//@ object WriteCloser
+//@   props C20 C13
+//@   mode sequential
+//@   lock closeMtx
+//@   guarded wr, close
+//
+//@ func NewWriteCloser
+//@   props C20
+//@   modifies alloc
+//@   ensures result != nil && result.wr == wr && result.close == close
+//
+//@ func (*WriteCloser).Write
+//@   props C20
+//@   modifies ghost:calls, time
+//@   ensures closed: old(w.wr) == nil ==> result0 == 0 && result1 == io.EOF && (forall r: ref :: calls(r) == old(calls(r)))
+//@   ensures open: old(w.wr) != nil ==> calls(old(w.wr)) == old(calls(old(w.wr))) + 1 && (forall r: ref :: r != old(w.wr) ==> calls(r) == old(calls(r)))
+//
+//@ func (*WriteCloser).Close
+//@   props C20
+//@   modifies this.wr, this.close, ghost:calls, time
+//@   ensures cleared: w.wr == nil && w.close == nil
+//@   ensures once: old(w.close) != nil ==> calls(old(w.close)) == old(calls(old(w.close))) + 1 && (forall r: ref :: r != old(w.close) ==> calls(r) == old(calls(r)))
+//@   ensures none: old(w.close) == nil ==> result == nil && (forall r: ref :: calls(r) == old(calls(r)))
